@@ -112,7 +112,7 @@ def choi_from_unitary(unitary: np.ndarray) -> np.ndarray:
 
     """
     unitary = np.array(unitary)
-    return np.outer(unitary.flatten(), np.conj(unitary.flatten()))
+    return np.outer(unitary.T.flatten(), np.conj(unitary.T.flatten()))
 
 
 def _vec(mat: np.ndarray) -> np.ndarray:
